@@ -472,4 +472,184 @@ theorem fclaimV_succ {n : Nat} (hE : FClaimE n) (hV : FClaimV n) : FClaimV (n + 
     | brk l rs1 => rw [h1] at ih; exact ih.elim
     | cont l rs1 => rw [h1] at ih; exact ih.elim
 
+/-! ## Array literals -/
+
+/-- `[e₁ … eₙ]`, after the elements have been pushed: `CallInstr{array, n}` allocates the array -/
+theorem simF_arr_tail {m m1 : Nat → Nat} {s s₁ : St} {rs rs₁ : Ref.St} {env : Nat} {pre post ca : List Instr}
+    {vs : List Val} {k : Nat}
+    (h : Seg s pre (ca ++ [.callArr k]) post) (hk : k = vs.length)
+    (r1 : ReachX s s₁) (hfn1 : fnOf s₁ s₁.curfunc = fnOf s s.curfunc)
+    (hpc1 : s₁.pc = s.pc + (ca.length : Int)) (hd1 : s₁.data = vs.reverse.map some ++ s.data)
+    (rel1 : RelF m1 s₁ rs₁ env) (hm1 : MExt s m m1) (ext1 : RExt rs rs₁) (fr1 : FrameF s s₁)
+    (hclvs : ∀ v ∈ vs, VOk m1 s₁ rs₁ v) :
+    SimF (ca ++ [.callArr k]) m s rs env
+      (match rs₁.heap.alloc (vs.map (trf m1)) with | (a, hp) => .ok a { rs₁ with heap := hp }) := by
+  have a2 : At s₁ (pre ++ ca) (.callArr k) post :=
+    At.move h hfn1 (by simp) (by rw [hpc1, h.pc]; simp)
+  have hfo : foResult "array" vs (inBuiltin s₁ s.data)
+      = (.ok (s₁.heap.alloc vs).1, { inBuiltin s₁ s.data with heap := (s₁.heap.alloc vs).2 }) := by
+    have hb : (inBuiltin s₁ s.data).heap = s₁.heap := rfl
+    unfold foResult
+    rw [if_neg (by decide), hb, prim_array]
+  have hx : ∀ f, 2 ≤ f → (exec (f + 1) (.callArr k)).run s₁
+      = (.ok (), afterBuiltin s₁ s.data (s₁.heap.alloc vs).1 (s₁.heap.alloc vs).2) := by
+    intro f hf
+    obtain ⟨g, rfl⟩ : ∃ g, f = g + 2 := ⟨f - 2, by omega⟩
+    rw [exec, hk, run_callUser_fo g "array" (by decide) vs s.data s₁ hd1, hfo]
+    rfl
+  have hlen : (ca ++ [Instr.callArr k]).length = ca.length + 1 := by simp
+  have halloc := trHeap_alloc m1 id id s₁.heap vs
+  rw [rel1.heap, halloc]
+  show SimF _ m s rs env (.ok (trf m1 (s₁.heap.alloc vs).1) { rs₁ with heap := trHeap m1 id id (s₁.heap.alloc vs).2 })
+  have hhok : HOk m1 s₁ rs₁ (s₁.heap.alloc vs).2 := heapIn_alloc rel1.hok vs hclvs
+  have hfr : FrameF s₁ (afterBuiltin s₁ s.data (s₁.heap.alloc vs).1 (s₁.heap.alloc vs).2) :=
+    ⟨⟨rfl, rfl, rfl, rfl, Nat.le_refl _, fun _ _ => rfl, Nat.le_refl _, fun _ _ => rfl⟩, Nat.le_refl _, fun _ _ => rfl⟩
+  have hrext : RExt rs₁ { rs₁ with heap := trHeap m1 id id (s₁.heap.alloc vs).2 } :=
+    ⟨fun i fr hf => ⟨fr, hf, rfl⟩, fun i c hc => hc⟩
+  refine ⟨_, m1, (s₁.heap.alloc vs).1, (r1.trans (ReachX.step a2 2 hx)), ⟨hfn1, ?_, rfl⟩, rfl,
+    rel1.of_same rfl rfl rfl rfl rfl rfl rfl rel1.trace hhok, hm1, ext1.trans hrext, fr1.trans hfr,
+    valIn_of_const (fun _ _ _ => rfl)⟩
+  show s₁.pc + 1 = _
+  rw [hpc1, hlen]; push_cast; omega
+
+/-! ## `let` with distinct names -/
+
+theorem ffBinds_names : ∀ (fnOk : Bool) (self : String) (bs : List (String × Expr)), FfBinds fnOk self bs = true →
+    ∀ x ∈ bs.map (·.1), okName x = true
+  | _, _, [], _, x, hx => by cases hx
+  | fnOk, self, (y, e) :: bs, h, x, hx => by
+    rw [FfBinds] at h
+    simp only [Bool.and_eq_true] at h
+    rcases List.mem_cons.mp hx with rfl | hx
+    · exact h.1.1
+    · exact ffBinds_names fnOk self bs h.2 x hx
+
+theorem trPairs_reverse (m : Nat → Nat) (ps : List (String × Val)) : trPairs m ps.reverse = (trPairs m ps).reverse := by
+  unfold trPairs; rw [List.map_reverse]
+
+theorem trPairs_zip (m : Nat → Nat) (names : List String) (vs : List Val) :
+    trPairs m (names.zip vs) = names.zip (vs.map (trf m)) := by
+  unfold trPairs
+  induction names generalizing vs with
+  | nil => rfl
+  | cons x xs ih =>
+    cases vs with
+    | nil => rfl
+    | cons v vs => simp only [List.zip_cons_cons, List.map_cons, ih]
+
+/-- `let` with pairwise distinct names: the initialisers in the fresh scope, the bindings
+(popped in reverse order), the body, `removeScope`. -/
+theorem fclaimE_letpar {n : Nat} (hB : FClaimB n) (hP : FClaimP n) {fnOk : Bool} {self : String}
+    {bs : List (String × Expr)} {body : List Expr}
+    (isFn : Nat → Bool) (c : Ctx) (gs : GS) (r : (List Instr × Bool) × GS)
+    (hc : (compile isFn c (.let_ false bs body)).run gs = .ok r)
+    (m : Nat → Nat) (s : St) (rs : Ref.St) (env : Nat) (pre post : List Instr) (hrel : RelF m s rs env)
+    (hgen : fnOk = true → GenOk gs r.2 s) (hseg : Seg s pre r.1.1 post) (hfn : FnameOk self c)
+    (hnd : (bs.map (·.1)).Nodup) (hbody : body ≠ []) (hbs : FfBinds fnOk self bs = true) (hbl : FfList fnOk self body = true) :
+    SimF r.1.1 m s rs env (Ref.eval (n + 1) (.let_ false bs body) env rs) := by
+  rw [compile] at hc
+  simp only [g_bind_ok, g_pure_ok] at hc
+  obtain ⟨ra, gs1, ha, rb, gs2, hb, rfl⟩ := hc
+  have hk1 := compileBinds_keep_Ff hbs ha hfn
+  have hk2 := compileBegin_keep_Ff hbody hbl hb hfn
+  have hcode : ([Instr.addScope] ++ ra.1 ++ (if False then [] else (List.map (fun p => Instr.popStackPutEnv p.fst) bs).reverse)
+      ++ rb.1 ++ [Instr.removeScope])
+      = [Instr.addScope] ++ (ra.1 ++ (bs.map (fun p => Instr.popStackPutEnv p.1)).reverse ++ rb.1) ++ [Instr.removeScope] := by
+    simp
+  simp only [Bool.false_eq_true, hcode] at hseg hgen ⊢
+  rw [Ref.eval]
+  show SimF _ m s rs env (if false = true then _ else
+      (match Ref.evalList n (bs.map (·.2)) rs.frames.length (Ref.newFrame rs env).2 with
+       | .ok vs s => (match Ref.bindAll s rs.frames.length (bs.map (·.1)) vs with
+          | some s => Ref.evalBegin n body rs.frames.length s
+          | none => .err s)
+       | .err s => .err s | .brk l s => .brk l s | .cont l s => .cont l s | .timeout => .timeout))
+  rw [if_neg (by decide)]
+  refine SimF.scoped hseg hrel ?_
+  have hseg1 := hseg.inner
+  have hL := hP fnOk self bs hbs isFn _ gs (ra, gs1) ha hfn m _ _ _ _ _ hrel.pushScope
+    (fun h => ((hgen h).first hk2.1).mono (FnsKeep.of_fns_eq rfl))
+    (hseg1.refocus (c' := ra.1)
+      (post' := (bs.map (fun p => Instr.popStackPutEnv p.1)).reverse ++ rb.1 ++ ([.removeScope] ++ post)) (by simp))
+  cases h1 : Ref.evalList n (bs.map (·.2)) rs.frames.length (Ref.newFrame rs env).2 with
+  | ok vs' rs2 =>
+    rw [h1] at hL
+    obtain ⟨s2, m2, vs, r2, hfn2, hpc2, hdata2, hvs2, rel2, hm2, ext2, fr2, hcl2⟩ := hL
+    simp only
+    have hlen : vs.length = bs.length := by
+      have := ref_evalList_length _ _ _ _ _ _ h1
+      rw [hvs2] at this
+      simpa using this
+    -- the pairs in the order the VM binds them
+    have hmapI : ((bs.map (·.1)).zip vs).reverse.map (fun p => Instr.popStackPutEnv p.1)
+        = (bs.map (fun p => Instr.popStackPutEnv p.1)).reverse := by
+      rw [List.map_reverse]
+      congr 1
+      have : ((bs.map (·.1)).zip vs).map (fun p => Instr.popStackPutEnv p.1)
+          = (((bs.map (·.1)).zip vs).map (·.1)).map Instr.popStackPutEnv := by rw [List.map_map]; rfl
+      rw [this, List.map_fst_zip (by simp [hlen]), List.map_map]; rfl
+    have hmapD : ((bs.map (·.1)).zip vs).reverse.map (fun p => some p.2) = vs.reverse.map some := by
+      have : ((bs.map (·.1)).zip vs).map (fun p => some p.2)
+          = (((bs.map (·.1)).zip vs).map (·.2)).map some := by rw [List.map_map]; rfl
+      rw [List.map_reverse, List.map_reverse, this, List.map_snd_zip (by simp [hlen])]
+    have hndz : ((trPairs m2 ((bs.map (·.1)).zip vs)).map (·.1)).Nodup := by
+      rw [trPairs_zip, List.map_fst_zip (by simp [hlen])]; exact hnd
+    have hsegB : Seg s2 (pre ++ [Instr.addScope] ++ ra.1)
+        (((bs.map (·.1)).zip vs).reverse.map (fun p => Instr.popStackPutEnv p.1)) (rb.1 ++ ([.removeScope] ++ post)) := by
+      rw [hmapI]
+      exact hseg1.move hfn2 (by simp) (by rw [hpc2, hseg1.pc]; simp; omega)
+    have hokp : ∀ p ∈ ((bs.map (·.1)).zip vs).reverse, okName p.1 = true := by
+      intro p hp
+      have hmem : p.1 ∈ bs.map (·.1) := (List.of_mem_zip (show (p.1, p.2) ∈ _ from List.mem_reverse.mp hp)).1
+      exact ffBinds_names fnOk self bs hbs p.1 hmem
+    have hclp : ∀ p ∈ ((bs.map (·.1)).zip vs).reverse, VOk m2 s2 rs2 p.2 := by
+      intro p hp
+      exact hcl2 p.2 (List.of_mem_zip (show (p.1, p.2) ∈ _ from List.mem_reverse.mp hp)).2
+    have hvm := vm_defineAllF ((bs.map (·.1)).zip vs).reverse s2 rs2 rs.frames.length _ _ s.pushScope.data hokp hclp hsegB
+      (by rw [hmapD]; exact hdata2) rel2
+    obtain ⟨k2, hch2, hfc2⟩ := rel2.ctx
+    have hlt2 := hch2.lt
+    obtain ⟨fr0, hfr0⟩ : ∃ fr0, rs2.frames[rs.frames.length]? = some fr0 := ⟨rs2.frames[rs.frames.length], by simp [hlt2]⟩
+    have hrev := defineAll_reverse rs2 rs.frames.length fr0 hfr0 (trPairs m2 ((bs.map (·.1)).zip vs)) hndz
+    rw [bindAll_eq_defineAll, hvs2, ← trPairs_zip]
+    rw [trPairs_reverse] at hvm
+    cases hfwd : defineAll rs2 rs.frames.length (trPairs m2 ((bs.map (·.1)).zip vs)) with
+    | some a =>
+      cases hbwd : defineAll rs2 rs.frames.length (trPairs m2 ((bs.map (·.1)).zip vs)).reverse with
+      | some b =>
+        rw [hfwd, hbwd] at hrev
+        rw [hbwd] at hvm
+        obtain ⟨va, vb, hva, hvb, hlook⟩ := hrev
+        obtain ⟨s3, r3, hfn3, hpc3, hdata3, rel3, ext3, fr3⟩ := hvm
+        simp only
+        rw [hvb] at rel3 ext3
+        have rel3a : RelF m2 s3 a rs.frames.length := by rw [hva]; exact rel3.withVars_congr hfr0 hlook
+        have ext3a : RExt rs2 a := by rw [hva]; exact ⟨ext3.1.withVars_congr, ext3.2⟩
+        have m3 : Moved (ra.1.length + (bs.map (fun p => Instr.popStackPutEnv p.1)).reverse.length) s.pushScope s3 :=
+          ⟨hfn3.trans hfn2, by
+            rw [hpc3, hpc2]; simp only [List.length_reverse, List.length_map, List.length_zip, hlen, Nat.min_self]
+            push_cast; omega, hdata3⟩
+        have ihb := hB fnOk self body hbody hbl isFn _ gs1 (rb, gs2) hb hfn m2 s3 a _ _ _ rel3a
+          (fun h => (((hgen h).rest hk1.1).mono (s' := s.pushScope) (FnsKeep.of_fns_eq rfl)).frame (fr2.trans fr3).toFrame)
+          (hseg1.moved m3 (c₁ := ra.1 ++ (bs.map (fun p => Instr.popStackPutEnv p.1)).reverse) (c₂ := rb.1)
+            (post' := [.removeScope] ++ post) (by simp) (by simp))
+        refine SimF.seq (r2.trans r3.toX) m3 hm2 (ext2.trans ext3a) (fr2.trans fr3) ihb ?_
+        simp only [List.length_append, List.length_reverse, List.length_map]
+      | none =>
+        rw [hfwd, hbwd] at hrev
+        exact hrev.elim
+    | none =>
+      cases hbwd : defineAll rs2 rs.frames.length (trPairs m2 ((bs.map (·.1)).zip vs)).reverse with
+      | some b =>
+        rw [hfwd, hbwd] at hrev
+        exact hrev.elim
+      | none =>
+        rw [hbwd] at hvm
+        simp only
+        exact FailsX.of_reach r2 hvm.toX
+  | err rs2 => rw [h1] at hL; exact hL
+  | timeout => trivial
+  | brk l rs2 => rw [h1] at hL; exact hL.elim
+  | cont l rs2 => rw [h1] at hL; exact hL.elim
+
 end ZygoVerif.Sim
